@@ -167,6 +167,11 @@ def check(repo: Repo, rep, tier):
     # persisting an external is a write: only the one file an approved change refers to
     persist_unique(repo, rep)
     stale_bindings(repo, rep, {"config", "_current"}, "e.g. a copied state/config object keeps the flags of import time, so approval decisions are taken on stale data")
+    from .C13 import persist_remove, content_addr
+
+    # an approved create is applied completely: the data behind every written reference is stored and persisted
+    persist_remove(repo, rep)
+    content_addr(repo, rep)
 
 
 WRITER_TABLE = {
@@ -688,6 +693,11 @@ def configure(repo: Repo, rep):
         for comp in [x for x in body_nodes(f.node) if isinstance(x, ast.comprehension)]:
             src_ok = comp.iter is sp_ or (isinstance(comp.iter, ast.Name) and comp.iter.id == holder)
             if src_ok and isinstance(comp.target, ast.Name) and any(any(isinstance(y, ast.Name) and y.id == comp.target.id for y in ast.walk(t)) for t in comp.ifs):
+                filtered = True
+        for lp_ in [x for x in body_nodes(f.node) if isinstance(x, ast.For) and isinstance(x.target, ast.Name)]:
+            # `for flag in flags: if flag: kept.add(flag)`
+            src_ok = lp_.iter is sp_ or (isinstance(lp_.iter, ast.Name) and lp_.iter.id == holder)
+            if src_ok and any(isinstance(y, ast.If) and any(isinstance(z, ast.Name) and z.id == lp_.target.id for z in ast.walk(y.test)) for y in lp_.body):
                 filtered = True
         for x in body_nodes(f.node):
             if isinstance(x, ast.Call) and isinstance(x.func, ast.Attribute) and x.func.attr in ("discard", "remove") and x.args and isinstance(x.args[0], ast.Constant) and x.args[0].value == "":
